@@ -351,6 +351,10 @@ func checkC13(c *ctx) {
 		c.Violation("C13 "+bad, false)
 		return
 	}
+	if bad := idOrderDeletions(c); bad != "" {
+		c.Violation("C13 "+bad, false)
+		return
+	}
 	if bad := sameShapedThesMerges(c, c.n(24, 400)); bad != "" {
 		c.Violation("C13 "+bad, false)
 		return
@@ -510,6 +514,55 @@ func crossSegmentRecycling(c *ctx, rounds int) string {
 			c.Count("cross_segment_recycled_lookups")
 		}
 		closeAll()
+	}
+	return ""
+}
+
+// idOrderDeletions: within one thesaurus the synonyms get their internal ids in the order p, q, r
+// (documents 0 and 1 define other terms with p and q); document 2 defines tango with p and r - the
+// lowest and the highest id of tango's list - and document 3 defines tango with q; each single
+// document is deleted in turn (and pairs of them): the pairs of the surviving documents must remain.
+func idOrderDeletions(c *ctx) string {
+	def := func(id, term string, syns ...string) zh.Doc {
+		return zh.Doc{Fields: []zh.Field{zh.IDField(id), {Name: "syn1", Typ: 's', Syn: []zh.SynDef{{Term: term, Syns: syns}}}}}
+	}
+	b := zh.Batch{def("i00", "xray", "p"), def("i01", "yoke", "q"), def("i02", "tango", "p", "r"), def("i03", "tango", "q"), def("i04", "tango", "r", "p")}
+	other := zh.Batch{def("j00", "tango", "z"), def("j01", "alpha", "q")}
+	for mask := 1; mask < 1<<5-1; mask++ {
+		if mask&(mask-1) != 0 && mask != 0b10100 && mask != 0b00101 && mask != 0b01100 {
+			continue // single deletions, and three pairs
+		}
+		for _, two := range []bool{false, true} {
+			e1, err := newBuilt(c, b, 1026, mask%2 == 0)
+			must(err)
+			var drops []uint64
+			for d := 0; d < 5; d++ {
+				if mask&(1<<d) != 0 {
+					drops = append(drops, uint64(d))
+				}
+			}
+			mc := &mergeCase{ins: []*segEnt{e1}, drops: [][]uint64{drops}, nilBM: []bool{false}, mode: 1026}
+			if two {
+				e2, err := newBuilt(c, other, 1026, false)
+				must(err)
+				mc.ins, mc.drops, mc.nilBM = append(mc.ins, e2), append(mc.drops, nil), append(mc.nilBM, true)
+			}
+			c.Case(fmt.Sprintf("id-order-deletion-%05b-%v", mask, two), true)
+			c.Count("merges_deleting_the_holder_of_the_lowest_and_highest_synonym_id")
+			bad, r, spec := mergeVerdict(c, mc, []int{pThes}, false)
+			if bad == "" && r.seg != nil {
+				bad = thesaurusQueries(c, r.seg, spec)
+			}
+			if r != nil && r.seg != nil {
+				r.seg.Close()
+			}
+			for _, e := range mc.ins {
+				e.close()
+			}
+			if bad != "" {
+				return fmt.Sprintf("documents %v deleted from a segment in which term tango is defined by document 2 with synonyms p, r (lowest and highest internal id), document 3 with q and document 4 with r, p; second input: %v\n%s\n%s", drops, two, clip(bad), clip(mc.describe()))
+			}
+		}
 	}
 	return ""
 }
